@@ -91,18 +91,14 @@ Definition strip_padding (s : bytes) : bytes :=
   | _ => s
   end.
 
-(* wide form: characters at even positions (a '=' is dropped), zeroes at odd ones *)
-Fixpoint wide_chars (s : bytes) : option bytes :=
-  match s with
-  | [] => Some []
-  | [c] => Some (if c =? 61 then [] else [c])
-  | c :: z :: t =>
-      if z =? 0 then
-        match wide_chars t with
-        | Some r => Some (if c =? 61 then r else c :: r)
-        | None => None
-        end
-      else None
+(* wide form (after commit b2a39c9f): the characters at even positions, zeroes at odd
+   ones (the last zero may be missing: the data may end right after a character), then
+   trailing padding stripped exactly as in the ascii form.  Before that commit every
+   '=' at an even offset was dropped, also in the middle of the window. *)
+Definition wide_chars (s : bytes) : option bytes :=
+  match unwiden s with
+  | Some cs => Some (strip_padding cs)
+  | None => None
   end.
 
 Definition verify_base64 (lit : bytes) (d : bytes) (padding : nat) (pos : nat)
